@@ -486,6 +486,9 @@ struct Prog {
   int steps = 0, uses = 0;
   bool coincident = false;  // two operand occurrences of the same solid under the same transform were combined:
                             // their surfaces coincide exactly (the symbolic-perturbation regime); part of the key only
+  bool zeroTangentRefine = false;  // Refine(2) was applied to an object that exported a non-empty, all-zero halfedgeTangent
+                                   // although no operand ever had tangents (diagnostic tag in the key only)
+  std::vector<std::pair<int, X34>> geo;  // (geometry class, accumulated transform) of every operand occurrence so far; survives AsOriginal
 };
 
 static std::vector<Placement> PL;
@@ -495,8 +498,9 @@ static std::string opndName(const Operand& o) { return G_leaf[o.leaf].name + "@"
 
 static void addInstances(Prog& p, const Operand& o) {
   const int cls = o.leaf == L_CUBEQUAD ? (int)L_CUBETRI : o.leaf, use = p.uses++;
-  for (auto& i : p.inst)
-    if (i.cls == cls && xDiff(i.M, PL[o.place].M) <= 1e-12L) p.coincident = true;
+  for (auto& gm : p.geo)
+    if (gm.first == cls && xDiff(gm.second, PL[o.place].M) <= 1e-12L) p.coincident = true;
+  p.geo.push_back({cls, PL[o.place].M});
   for (int gi : G_leaf[o.leaf].orig) {
     int ti = -1;
     for (size_t i = 0; i < p.table.size(); ++i)
@@ -512,10 +516,17 @@ static void applyStep(Prog& p, const Step& s, bool forced) {
     case K_XF:
       p.m = PL[s.a].ap(p.m);
       for (auto& i : p.inst) i.M = xMul(PL[s.a].M, i.M);
+      for (auto& gm : p.geo) gm.second = xMul(PL[s.a].M, gm.second);
       break;
-    case K_REFINE:
+    case K_REFINE: {
+      MeshGL64 pre = p.m.GetMeshGL64();  // Refine evaluates its operand anyway
+      bool allZero = !pre.halfedgeTangent.empty();
+      for (double v : pre.halfedgeTangent)
+        if (v != 0) allZero = false;
+      if (allZero) p.zeroTangentRefine = true;
       p.m = p.m.Refine(2);
       break;
+    }
     case K_ASORIG: {
       p.m = p.m.AsOriginal();
       MeshGL64 e = p.m.GetMeshGL64();
@@ -896,7 +907,7 @@ int main(int argc, char** argv) {
 
   std::vector<const char*> CN = {"programs", "transitions", "errors", "empty_results", "runs", "empty_runs", "backside_runs", "mirrored_runs",
                                  "instance_pairs", "tris", "tris_library_faces", "normals_judged", "normals_thin_skipped", "prop_corners",
-                                 "prop_corners_judged", "prop_skipped_nonaffine", "prop_over_quarter_slack", "prop_over_half_slack", "pos_over_half_tol", "pos_over_tol", "zero_channels_judged", "states", "programs_coincident_operands"};
+                                 "prop_corners_judged", "prop_skipped_nonaffine", "prop_over_quarter_slack", "prop_over_half_slack", "pos_over_half_tol", "pos_over_tol", "zero_channels_judged", "states", "programs_coincident_operands", "programs_refine_of_zero_tangents"};
 
   auto runProgram = [&](const Alphabet& A, const std::vector<int>& d, int depth, Ctx& c) {
     const auto& seeds = A.seeds;
@@ -932,8 +943,11 @@ int main(int argc, char** argv) {
     uint64_t h = byteHash(g, false);
     if (c.distinct(h)) c.count("states");
     if (V.nonEmptyRuns >= 2) c.nontrivial(h);
-    for (auto& kv : V.viol) c.viol(kv.first + (p.coincident ? "[coincident-operands]:" : ":") + name, name, kv.second);
+    for (auto& kv : V.viol)
+      c.viol(kv.first + (p.coincident ? "[coincident-operands]" : "") + (p.zeroTangentRefine ? "[refine-of-zero-tangents]" : "") + ":" + name, name,
+             kv.second);
     if (p.coincident) c.count("programs_coincident_operands");
+    if (p.zeroTangentRefine) c.count("programs_refine_of_zero_tangents");
   };
 
   auto runPhases = [&](const std::string& prefix, const Alphabet& A, int d0, int d1) {
